@@ -167,6 +167,71 @@ def o_closure(case):
     return labels
 
 
+def _expected(coin, txd, n_in, code, amount, ht, entry):
+    if entry == 0:
+        if coin in ("btc", "ltc"):
+            return R.legacy(txd, n_in, code, ht)
+        if coin == "grs":
+            return R.legacy(txd, n_in, code, ht, R.sha256)
+        e = R.forkid(txd, n_in, code, amount, ht, 0 if coin == "bch" else 79)
+        return "refused" if e is None else e
+    if coin in ("btc", "ltc", "bch"):
+        return R.bip143(txd, n_in, code, amount, ht)
+    if coin == "grs":
+        return R.bip143(txd, n_in, code, amount, ht, R.sha256)
+    pre = R.bip143_preimage(txd, n_in, code, amount, ht)
+    return int.from_bytes(R.sha256d(pre[:-4] + struct.pack("<L", ht | (79 << 8))), "big")
+
+
+def o_history(case):
+    """one long-lived SolutionChecker serving many (input, hash type) queries, with the transaction edited in between"""
+    coin = case["coin"]
+    T = TX[coin]
+    txd = _tx_dict(case)
+    code = A.render(case["code"])
+    amounts = [case["amount"] + 3 * k for k in range(len(txd["ins"]))]
+    amounts = [a & (2**64 - 1) for a in amounts]
+    tx = _pycoin_tx(T, txd, amounts)
+    sc = T.SolutionChecker(tx)
+    labels = ["coin=" + coin]
+    seen_idx = set()
+    nq = 0
+    for op in case["ops"]:
+        if op[0] == "q":
+            idx = op[1] % len(txd["ins"])
+            ht, entry = op[2], op[3]
+            seen_idx.add(idx)
+            nq += 1
+            snap = _snapshot(tx)
+            try:
+                got = sc._signature_hash(code, idx, ht) if entry == 0 else sc._signature_for_hash_type_segwit(code, idx, ht)
+            except ScriptError:
+                got = "refused"
+            exp = _expected(coin, txd, idx, code, amounts[idx], ht, entry)
+            if got != exp:
+                raise Violation("sighash:history:%s-entry:%s" % ("legacy" if entry == 0 else "bip143", coin if coin in ("bch", "btg", "grs") else "btc"),
+                                "query #%d on a long-lived checker: %s %s(idx=%d, ht=0x%02x) = %s, reference %s; ops so far %s" % (
+                                    nq, coin, "_signature_hash" if entry == 0 else "_signature_for_hash_type_segwit", idx, ht, _h(got), _h(exp), case["ops"][:case["ops"].index(op) + 1]))
+            if _snapshot(tx) != snap:
+                raise Violation("sighash:modifies-tx", "transaction changed by signature-hash computation")
+        elif op[0] == "out-value" and txd["outs"]:
+            k = op[1] % len(txd["outs"])
+            txd["outs"][k]["value"] = op[2]
+            tx.txs_out[k].coin_value = op[2]
+            labels.append("mutated")
+        elif op[0] == "sequence":
+            k = op[1] % len(txd["ins"])
+            txd["ins"][k]["sequence"] = op[2]
+            tx.txs_in[k].sequence = op[2]
+            labels.append("mutated")
+        elif op[0] == "locktime":
+            txd["locktime"] = op[1]
+            tx.lock_time = op[1]
+            labels.append("mutated")
+    labels.append("idx-distinct=%d" % min(3, len(seen_idx)))
+    return sorted(set(labels))
+
+
 # ------------------------------------------------------------------------------------------ strategies
 
 def _wellformed_codes():
@@ -174,7 +239,7 @@ def _wellformed_codes():
     def clean(tokens):
         out = []
         for t in tokens:
-            if t[0] == "raw":
+            if t[0] in ("raw", "ctxnum"):
                 continue
             if t[0] == "rep":
                 out.append(["rep", clean(t[1]), min(t[2], 20)])
@@ -216,11 +281,28 @@ def s_closure():
                      st.lists(st.one_of(st.sampled_from([1, 2, 3, 0x81, 0x82, 0x83, 0]), st.integers(0, 255)), min_size=1, max_size=4))
 
 
+def s_history():
+    u32 = st.sampled_from([0, 1, 0xffffffff, 0xfffffffe, 77])
+    ht = st.one_of(st.sampled_from([1, 2, 3, 0x81, 0x82, 0x83, 0x41, 0x42, 0x43, 0xc1, 0xc2, 0xc3]), st.integers(0, 255))
+    q = st.tuples(st.just("q"), st.integers(0, 5), ht, st.sampled_from([0, 1, 1])).map(list)
+    mut = st.one_of(st.tuples(st.just("out-value"), st.integers(0, 5), st.integers(0, 10**9)).map(list),
+                    st.tuples(st.just("sequence"), st.integers(0, 5), u32).map(list),
+                    st.tuples(st.just("locktime"), u32).map(list))
+    from gen.common import weighted
+    ops = st.lists(weighted((5, q), (1, mut)), min_size=2, max_size=14)
+    return st.builds(lambda tx, code, coin, ops: dict(tx, code=code, coin=coin, ops=ops), _txs(), _wellformed_codes(),
+                     st.sampled_from(["btc", "btc", "ltc", "bch", "btg", "grs"]), ops)
+
+
 def nt(case, labels):
     return (len(case["ins"]) >= 2 and len(case["outs"]) >= 2) or "has-ab-byte" in labels or "removed" in labels or "sep" in labels
 
 
 SUBCHECKS = [
+    SubCheck("checker_history", o_history, strategy=s_history, budget=(3000, 300000),
+             nontrivial=lambda c, l: "idx-distinct=1" not in l,
+             rule="histories on ONE SolutionChecker object: 2-14 operations, each a digest query (input index, hash type, legacy or BIP143 entry point) or an edit of the transaction (an output value, a sequence number, the lock time); every answer must equal the reference digest of the transaction as it is at that moment (a stale cache is a violation); non-trivial = queries for >= 2 distinct input indices",
+             ),
     SubCheck("digests_all_hashtypes", o_sighash, strategy=s_sighash, budget=(480, 30000), nontrivial=nt,
              rule="generated transaction (1-6 inputs, 0-6 outputs, full-range fields) x well-formed script code (grammar incl. code separators and 0xab data bytes) x coin class; for EVERY hash type 0-255 both _signature_hash and _signature_for_hash_type_segwit equal the reference (fork-id coins: ScriptError iff FORKID bit clear); tx snapshot unchanged; non-trivial = >=2 inputs and >=2 outputs, or code containing a 0xab byte"),
     SubCheck("legacy_closure", o_closure, strategy=s_closure, budget=(2500, 200000), nontrivial=nt,
